@@ -10,8 +10,6 @@ pub fn sqrt<const B: Word>(&self, x: &Repr<B>) -> Rounded<FBig<R, B>>
         ndigits(B as int, x.significand.v()) <= self.precision,
         // machine ranges (overflow of isize is outside this contract)
         self.precision < 0x1000_0000_0000_0000, -0x1000_0000_0000_0000 < x.exponent < 0x1000_0000_0000_0000,
-        // KNOWN DEFECT region excluded (double rounding, see sqrt_defect_region)
-        !sqrt_defect_region(B as int, x.significand.v(), x.exponent as int),
     ensures
         x.significand.v() == 0 ==> (map_repr(ret) matches Approximation::Exact(r) && r.significand.v() == 0 && r.exponent == 0),
         x.significand.v() > 0 ==> sqrt_post(R::md(), B as int, self.precision as nat, x.significand.v(), x.exponent as int, map_repr(ret)),
@@ -34,8 +32,8 @@ pub fn sqrt<const B: Word>(&self, x: &Repr<B>) -> Rounded<FBig<R, B>>
 
         // adjust the signifcand so that the exponent is even
         let digits = x.digits() as isize;
-        /*@ proof { lemma_and1(digits); lemma_and1(x.exponent); } @*/
-        let shift = self.precision as isize * 2 - (digits & 1) + (x.exponent & 1) - digits;
+        /*@ proof { lemma_xor1(digits, x.exponent); } @*/
+        let shift = self.precision as isize * 2 - ((digits ^ x.exponent) & 1) - digits;
         /*@ let ghost sh = shift as int;
             proof { assert(sh >= 0); assert((E - sh) % 2 == 0); } @*/
         let (signif, low, low_digits) = if shift > 0 {
